@@ -21,6 +21,17 @@ thread_local! {
 pub struct Rejects {
     /// stream packets: (error text, Debug text of the parsed packet)
     pub stream: Vec<(String, String)>,
+    /// for each entry of `stream`: had the receiving stream endpoint already published
+    /// `stream_receiver_errored` (reset, replayed key, idle timeout ...) when it refused the packet?
+    pub stream_receiver_dead: Vec<bool>,
+    /// virtual time (ns) of each entry of `stream`
+    pub stream_t_ns: Vec<u64>,
+    /// refusals beyond `STREAM_REJECT_CAP` are only counted (a stalled stream can produce millions)
+    pub stream_uncaptured: u64,
+    /// endpoint stream spans that have published `stream_receiver_errored`
+    pub errored_spans: std::collections::BTreeSet<u64>,
+    /// span of the most recent `stream_packet_received` (the refusal report that follows belongs to it)
+    pub last_pass_span: u64,
     /// control packets that failed authentication: (packet_number, packet_len, control_data_len)
     pub control: Vec<(u64, u64, u64)>,
     pub control_seen: u64,
@@ -28,15 +39,21 @@ pub struct Rejects {
     /// packet length): the receiver publishes `stream_packet_received` each time it starts to
     /// process a buffered stream packet
     pub passes: BTreeMap<(u64, u64, u64, u64, u64), u32>,
+    /// sequence number of the first processing pass per (packet number, stream offset, payload
+    /// length, packet length): the order in which receivers actually looked at packets
+    pub first_pass: BTreeMap<(u64, u64, u64, u64), u64>,
+    pub seq: u64,
     /// stream packets a sender saw acknowledged (`stream_packet_acked`): (packet number, stream
     /// offset, payload length, packet length)
     pub acked: std::collections::BTreeSet<(u64, u64, u64, u64)>,
 }
 
+pub const STREAM_REJECT_CAP: usize = 50_000;
 const RECV_STATE_TARGET: &str = "s2n_quic_dc::stream::recv::state";
 const CONTROL_EVENT: &str = "stream_control_packet_received";
 const STREAM_EVENT: &str = "stream_packet_received";
 const ACKED_EVENT: &str = "stream_packet_acked";
+const RECEIVER_ERRORED_EVENT: &str = "stream_receiver_errored";
 
 thread_local! {
     static NEXT_SPAN: std::cell::Cell<u64> = const { std::cell::Cell::new(2) };
@@ -51,6 +68,7 @@ fn is_reject_callsite(meta: &Metadata<'_>) -> bool {
         || meta.target() == CONTROL_EVENT
         || meta.target() == STREAM_EVENT
         || meta.target() == ACKED_EVENT
+        || meta.target() == RECEIVER_ERRORED_EVENT
         || is_conn_span(meta)
 }
 
@@ -178,6 +196,16 @@ impl tracing::Subscriber for Capture {
         let target = event.metadata().target();
         if let Some(t) = interesting(target) {
             COUNTS.with(|c| *c.borrow_mut().entry(t).or_insert(0) += 1);
+            if t == "replay_definitely_detected" || t == "replay_potentially_detected" {
+                // the key-id dedup check runs inside the first successful open of a stream endpoint:
+                // the endpoint that is processing a packet right now was created from a replayed
+                // key id (a second accept for the same credentials) and will refuse everything
+                REJECTS.with(|r| {
+                    let mut r = r.borrow_mut();
+                    let s = r.last_pass_span;
+                    r.errored_spans.insert(s);
+                });
+            }
         } else if target == CONTROL_EVENT {
             let mut v = ControlVisitor { auth: true, ..Default::default() };
             event.record(&mut v);
@@ -192,7 +220,19 @@ impl tracing::Subscriber for Capture {
             let mut v = ControlVisitor::default();
             event.record(&mut v);
             let span = event.parent().map_or(0, |p| p.into_u64());
-            REJECTS.with(|r| *r.borrow_mut().passes.entry((span, v.pn, v.off, v.plen, v.len)).or_insert(0) += 1);
+            REJECTS.with(|r| {
+                let mut r = r.borrow_mut();
+                r.last_pass_span = span;
+                r.seq += 1;
+                let q = r.seq;
+                r.first_pass.entry((v.pn, v.off, v.plen, v.len)).or_insert(q);
+                *r.passes.entry((span, v.pn, v.off, v.plen, v.len)).or_insert(0) += 1;
+            });
+        } else if target == RECEIVER_ERRORED_EVENT {
+            let span = event.parent().map_or(0, |p| p.into_u64());
+            REJECTS.with(|r| {
+                r.borrow_mut().errored_spans.insert(span);
+            });
         } else if target == ACKED_EVENT {
             let mut v = ControlVisitor::default();
             event.record(&mut v);
@@ -200,10 +240,29 @@ impl tracing::Subscriber for Capture {
                 r.borrow_mut().acked.insert((v.pn, v.off, v.plen, v.len));
             });
         } else if target == RECV_STATE_TARGET {
+            let full = REJECTS.with(|r| {
+                let mut r = r.borrow_mut();
+                if r.stream.len() >= STREAM_REJECT_CAP {
+                    r.stream_uncaptured += 1;
+                    true
+                } else {
+                    false
+                }
+            });
+            if full {
+                return;
+            }
             let mut v = StreamVisitor::default();
             event.record(&mut v);
             if !v.err.is_empty() {
-                REJECTS.with(|r| r.borrow_mut().stream.push((v.err, v.packet)));
+                REJECTS.with(|r| {
+                    let mut r = r.borrow_mut();
+                    let dead = r.errored_spans.contains(&r.last_pass_span);
+                    r.stream.push((v.err, v.packet));
+                    r.stream_receiver_dead.push(dead);
+                    let t = bach::time::Instant::try_now().map_or(0, |i| i.elapsed_since_start().as_nanos() as u64);
+                    r.stream_t_ns.push(t);
+                });
             }
         }
     }
